@@ -139,4 +139,39 @@ theorem check_is_exact_test (enc : List Nat → Nat) (hinj : ∀ a b, enc a = en
       Fresh (enc (srcs.map (·.ver))) (lib.map fun l => ⟨enc l.builtFrom, true⟩) :=
   (needs_recompile_exact lib srcs hw).trans (fresh_iff_upToDate enc hinj lib srcs).symm
 
+/-! ## The constants behind "within bounded time"
+
+The model's `K` ("a waiter gives up at its `K`-th unsuccessful poll") is abstract.  The loader's actual
+numbers — constants of the theorems' interpretation, measured on every run by the `default` case of the
+check (a stale lock, library absent, NO timeout override: a working language within `defaultLoadBoundMs`) —: -/
+
+/-- `Duration::from_secs(30)` at the call site of `LockFile::wait_for_removal`. -/
+def lockTimeoutMs : Nat := 30000
+
+/-- The `i`-th sleep of `wait_for_removal`: 100 ms, doubling, capped at 1000 ms. -/
+def sleepMs (i : Nat) : Nat := min (100 * 2 ^ i) 1000
+
+/-- Time slept before the `n`-th re-examination of the lock. -/
+def elapsedAfter (n : Nat) : Nat := ((List.range n).map sleepMs).sum
+
+/-- The `K` of the model that corresponds to the default: the number of polls that still see the lock
+before the deadline test `Instant::now() > deadline` can succeed. -/
+def defaultK : Nat := 33
+
+/-- After 33 sleeps the deadline has passed, after 32 it has not; the waiter overshoots the 30 s by at
+most one maximal sleep. -/
+theorem default_timeout_polls :
+    lockTimeoutMs < elapsedAfter defaultK ∧ elapsedAfter (defaultK - 1) ≤ lockTimeoutMs ∧
+    elapsedAfter defaultK ≤ lockTimeoutMs + 1000 := by decide
+
+/-- What the check allows a later loader that finds a stale lock and no library: the timeout, one
+maximal sleep, and 13.5 s for `cc` and `dlopen` (the compile takes about 1 s here). -/
+def defaultLoadBoundMs : Nat := 45000
+
+example : elapsedAfter defaultK + 13500 ≤ defaultLoadBoundMs := by decide
+
+/-- The seeded unit mix-up (`Duration::from_secs(30_000)`): the same waiter would sit out more than
+eight hours — far beyond any bound the check allows. -/
+example : defaultLoadBoundMs * 600 < 30000 * 1000 := by decide
+
 end TsVerif.C19
